@@ -1,3 +1,3 @@
--- This module serves as the root of the `VarmqVerif` library.
--- Import modules here that should be built as part of the library.
-import VarmqVerif.Basic
+import VarmqVerif.Spec.Obs
+import VarmqVerif.Spec.Props
+import VarmqVerif.Spec.Props2
